@@ -243,3 +243,45 @@ Proof.
   split; [exact Hpath|].
   unfold obj_path. cbn [o_hp obj_swamp fst]. rewrite Hpath. reflexivity.
 Qed.
+
+(* ---- client routing over time ------------------------------------------------------------------ *)
+
+Lemma route_h_app : forall tb e island,
+  route_h (tb ++ [e]) island =
+  let '(h, (lo, hi)) := e in if (lo <=? island) && (island <=? hi) then Some h else route_h tb island.
+Proof. intros tb [h [lo hi]] island. unfold route_h. rewrite fold_left_app. reflexivity. Qed.
+
+(* the answer is an assignment of the table that covers the island, and the most recent one *)
+Theorem route_h_sound : forall tb island h,
+  route_h tb island = Some h ->
+  exists pre lo hi post, tb = pre ++ (h, (lo, hi)) :: post /\ lo <= island /\ island <= hi /\
+    route_h post island = None.
+Proof.
+  induction tb as [|e tb IH] using rev_ind; intros island h H; [discriminate|].
+  rewrite route_h_app in H. destruct e as [h' [lo hi]].
+  destruct ((lo <=? island) && (island <=? hi)) eqn:E.
+  - injection H as <-. exists tb, lo, hi, []. apply andb_true_iff in E as [E1 E2].
+    apply N.leb_le in E1, E2. repeat split; auto.
+  - destruct (IH island h H) as [pre [lo' [hi' [post [-> [H1 [H2 H3]]]]]]].
+    exists pre, lo', hi', (post ++ [(h', (lo, hi))]).
+    split; [rewrite <- app_assoc; reflexivity|]. repeat split; auto.
+    rewrite route_h_app, E. exact H3.
+Qed.
+
+(* an island covered by some assignment is routed *)
+Theorem route_h_complete : forall tb island h lo hi,
+  In (h, (lo, hi)) tb -> lo <= island -> island <= hi -> route_h tb island <> None.
+Proof.
+  induction tb as [|e tb IH] using rev_ind; intros island h lo hi Hin H1 H2; [contradiction|].
+  rewrite route_h_app. destruct e as [h' [lo' hi']].
+  destruct ((lo' <=? island) && (island <=? hi')) eqn:E; [discriminate|].
+  apply in_app_or in Hin as [Hin|[Heq|[]]].
+  - eapply IH; eauto.
+  - injection Heq as -> -> ->. apply N.leb_le in H1, H2. rewrite H1, H2 in E. discriminate.
+Qed.
+
+(* two names with the same island are routed alike, whatever their Path strings are; names
+   with different islands follow their own island (no other input exists) *)
+Theorem route_depends_on_island_only : forall tb t t' n,
+  island_sdk t n = island_sdk t' n -> route_h tb (island_sdk t n) = route_h tb (island_sdk t' n).
+Proof. intros tb t t' n H. rewrite H. reflexivity. Qed.
